@@ -465,11 +465,16 @@ impl Range {
         let mut predicates = Vec::new();
 
         for lefty in &self.0 {
+            // what remains of `lefty` must stay clear of every set in `other`
+            let mut remaining = vec![lefty.clone()];
             for righty in &other.0 {
-                if let Some(mut range) = lefty.difference(righty) {
-                    predicates.append(&mut range)
-                }
+                remaining = remaining
+                    .iter()
+                    .filter_map(|piece| piece.difference(righty))
+                    .flatten()
+                    .collect();
             }
+            predicates.append(&mut remaining)
         }
 
         if predicates.is_empty() {
